@@ -15,6 +15,7 @@ import ast as pyast
 import collections
 import multiprocessing as mp
 import random
+import zlib
 import re
 import signal
 import time
@@ -521,7 +522,11 @@ THEOREMS["C08"] = ["Pest.C08." + t for t in (
     "extract_silent_away extract_silent_grammar extract_silent_expr equiv_in_ctx equivE_in_ctx equiv_cong rewrites_preserve_expr "
     "rewrites_preserve_parse rewrites_preserve_parse_partial equiv_bodies_partial equiv_bodies_preserve_parse interp_obs parse_obs "
     "rewrites_preserve_interp rewrites_preserve_interp_ok grammar_rewrites_preserve_interp grammar_rewrites_preserve_gen").split()] + [
-    "Pest.L0.Sim.conv", "Pest.L0.cong_grammar", "Pest.L0.Rewrite.sound", "Pest.L0.triviaTotal_of_progress", "Pest.L0.run_mono"]
+    "Pest.L0.Sim.conv", "Pest.L0.cong_grammar", "Pest.L0.Rewrite.sound", "Pest.L0.triviaTotal_of_progress", "Pest.L0.run_mono"] + [
+    "Pest.Tags." + t for t in (
+        "restore_restores_tags checkpoint_restore_tags interp_tag_frame gen_tag_frame choice_alternative_sees_same_tags "
+        "gen_choice_alternative_sees_same_tags opt_no_match_keeps_tags rep_failed_item_keeps_tags andP_keeps_tags notP_keeps_tags "
+        "trivia_attempt_keeps_tags").split()]
 THEOREMS["C13"] = ["Pest.C13." + t for t in (
     "pos_in_range parse_bounded fpos_in_range parse_end_in_range gen_pos_in_range gen_parse_bounded gen_fpos_in_range gen_fpos_agrees "
     "error_context_defined_on_failure gen_error_context_defined_on_failure error_context_on_failure_is_linecol "
@@ -820,7 +825,7 @@ def worker(job):
 def _worker(job):
     prop, shard, n_random, tier, sd, do_bundled = job
     signal.signal(signal.SIGALRM, _alarm)
-    rng = random.Random((sd * 1000003 + shard * 7919 + hash(prop) % 1000) & 0xFFFFFFFF)
+    rng = random.Random((sd * 1000003 + shard * 7919 + zlib.crc32(prop.encode()) % 1000) & 0xFFFFFFFF)
     plan = PLANS[prop]
     out = {"lines": [], "expect": [], "direct": [], "load_errors": [], "stats": collections.Counter(), "timeouts": []}
     groups = G.FEATURE_GROUPS if plan["groups"] is None else [g for g in G.FEATURE_GROUPS if g[0] in plan["groups"]]
@@ -835,6 +840,23 @@ def _worker(job):
                 cases = [(r, t, k) for r, t, k in ent["cases"]]
                 if prop == "C16":
                     cases += [(r, t, min(len(t), 1 + i % 3)) for i, (r, t, _k) in enumerate(cases)]
+                if prop == "C08" and ent.get("rewritten"):
+                    # a recorded original / rewritten pair (a past C08 failure): compared in all four modes
+                    try:
+                        m1, m2 = Modes(ent["grammar"], list(PASS_NAMES)), Modes(ent["rewritten"], list(PASS_NAMES))
+                        for r_, t_, k_ in cases:
+                            for m in MODES:
+                                a_, b_ = run_struct(m1.parse[m], r_, t_, k_), run_struct(m2.parse[m], r_, t_, k_)
+                                if "oof" not in (a_[0], b_[0]) and outcome(a_) != outcome(b_):
+                                    out["direct"].append({"group": "corpus:" + ent["name"], "grammar": ent["grammar"], "passes": list(PASS_NAMES),
+                                                          "rule": r_, "input": [ord(c) for c in t_], "start_pos": k_,
+                                                          "what": "rewritten grammar parses differently", "rewritten": ent["rewritten"],
+                                                          "rewrites": "recorded pair", "mode": m,
+                                                          "expected": enc_struct(a_)[:6000], "observed": enc_struct(b_)[:6000]})
+                    except Timeout:
+                        raise
+                    except Exception as e:  # noqa: BLE001
+                        out["load_errors"].append(("corpus:" + ent["name"], type(e).__name__, str(e)[:120], ""))
                 for passes in (list(PASS_NAMES), ["skip", "squash_choice"]):
                     signal.alarm(60)
                     try:
@@ -1096,6 +1118,19 @@ def erase_tags_str(s_: str) -> str:
     return _TAG_FIELD.sub(lambda m: f"({m.group(1)},{m.group(2)},{m.group(3)},-,[", s_)
 
 
+def open_finding_keys(prop: str) -> set:
+    """keys of the findings that known_findings.txt lists as open (`finding:` lines) for this property; a `fixed:` line
+    suppresses nothing"""
+    fp = Path(__file__).resolve().parent.parent / "known_findings.txt"
+    keys = set()
+    if fp.exists():
+        for ln in fp.read_text().splitlines():
+            m = re.match(r"finding:\s+property=(\S+)\s+key=(\S+)", ln)
+            if m and m.group(1) == prop:
+                keys.add(m.group(2))
+    return keys
+
+
 def tag_only_difference(f: dict) -> bool:
     """region of the known finding `tag-lost-on-backtrack`: the grammar writes a tag and the two
     results are equal once tags are erased"""
@@ -1237,7 +1272,7 @@ def run_prop(out: Outcome, level_when_proved: str = "proof") -> None:
     reported = 0
     seen = set()
     n_known = 0
-    if prop in ("C02", "C08"):
+    if prop in ("C02", "C08") and "tag-lost-on-backtrack" in open_finding_keys(prop):
         kept = []
         for f in direct:
             if tag_only_difference(f):
